@@ -13,7 +13,7 @@
 (*                                                                         *)
 (* Serves C04, the adaptive branches of C05 and C12.                       *)
 (***************************************************************************)
-EXTENDS Integers, Sequences, FiniteSets, SequencesExt, FiniteSetsExt, TLC
+EXTENDS Integers, Sequences, FiniteSets, SequencesExt, FiniteSetsExt, TLC, PhystAxis
 
 CONSTANTS Dims,        \* set of dimensions to explore, e.g. {1, 2}
           Indices,     \* grid indices a coordinate may take
@@ -36,19 +36,7 @@ Free(k) == pool[k] = Null
 
 SumOver(S, Op(_)) == FoldSet(LAMBDA x, acc : acc + Op(x), 0, S)
 
-(* An axis is [tmin, count]; count = 0 means "no bin yet". *)
-NoAxis(gr) == [tmin |-> 0, count |-> 0, grid |-> gr]     \* grid: which (width, shift) grid the axis lives on
-GrowAxis(ax, k) ==
-    IF ax.count = 0 THEN [tmin |-> k, count |-> 1, grid |-> ax.grid]
-    ELSE LET lo == IF k < ax.tmin THEN k ELSE ax.tmin
-             hi == IF k > ax.tmin + ax.count - 1 THEN k ELSE ax.tmin + ax.count - 1
-         IN  [tmin |-> lo, count |-> hi - lo + 1, grid |-> ax.grid]
-
-(* Union of two axes on the common grid (adaptive addition). *)
-UnionAxis(a, b) ==
-    IF b.count = 0 THEN a ELSE IF a.count = 0 THEN b
-    ELSE GrowAxis(GrowAxis(a, b.tmin), b.tmin + b.count - 1)
-
+(* axes: NoAxis, GrowAxis, UnionAxis, InAxis come from PhystAxis *)
 Empty(dim) == [axes |-> [a \in 1..dim |-> NoAxis(a)], cont |-> {}, w8d |-> FALSE]
 
 (* cont: set of <<cell, freq, err2>> with freq > 0 *)
@@ -162,7 +150,6 @@ Spec == Init /\ [][Next]_vars
 ---------------------------------------------------------------------------
 Total(h) == SumOver(h.cont, LAMBDA t : t[2])
 GWeight(bag) == SumOver(bag, LAMBDA t : t[2] * t[3])
-InAxis(ax, k) == ax.count > 0 /\ k >= ax.tmin /\ k <= ax.tmin + ax.count - 1
 
 (* C04: every value entered lies inside a bin and total = total weight entered (nothing missed). *)
 NothingMissed ==
